@@ -109,3 +109,143 @@ func cmdAllotScale(args []string) {
 	lw.close()
 	printJSON(J{"cases": cnt, "samples": samples})
 }
+
+// ---- generic scaling lift (no allotments): every number of a case is multiplied by U ----------------
+
+func liftNumbers(x any, c *Case, counter *int) {
+	switch v := x.(type) {
+	case J:
+		for _, k := range sortedKeys(v) {
+			if child, ok := v[k].(J); ok && child["k"] == "num" {
+				name := fmt.Sprintf("z%c%c", 'a'+(*counter)/26, 'a'+(*counter)%26)
+				*counter++
+				c.Decls = append(c.Decls, J{"type": "number", "name": name, "origin": J{"k": "none"}})
+				c.RawVars[name] = fmt.Sprint(child["v"])
+				c.VarVals[name] = J{"t": "num", "v": child["v"]}
+				v[k] = eVar(name)
+			} else {
+				liftNumbers(v[k], c, counter)
+			}
+		}
+	case []any:
+		for i, y := range v {
+			if child, ok := y.(J); ok && child["k"] == "num" {
+				name := fmt.Sprintf("z%c%c", 'a'+(*counter)/26, 'a'+(*counter)%26)
+				*counter++
+				c.Decls = append(c.Decls, J{"type": "number", "name": name, "origin": J{"k": "none"}})
+				c.RawVars[name] = fmt.Sprint(child["v"])
+				c.VarVals[name] = J{"t": "num", "v": child["v"]}
+				v[i] = eVar(name)
+			} else {
+				liftNumbers(y, c, counter)
+			}
+		}
+	}
+}
+
+type bigStore struct {
+	bal  map[string]map[string]*big.Int
+	meta map[string]map[string]string
+}
+
+func (s bigStore) GetBalances(context.Context, numscript.BalanceQuery) (numscript.Balances, error) {
+	out := numscript.Balances{}
+	for a, m := range s.bal {
+		out[a] = numscript.AccountBalance{}
+		for as, v := range m {
+			out[a][as] = new(big.Int).Set(v)
+		}
+	}
+	return out, nil
+}
+func (s bigStore) GetAccountsMetadata(context.Context, numscript.MetadataQuery) (numscript.AccountsMetadata, error) {
+	return mkMeta(s.meta), nil
+}
+
+// vh scale-sem <corpus> <prop> <seed> <n> <small-trace.ndjson> <scale.ndjson>
+func cmdScaleSem(args []string) {
+	if len(args) != 6 {
+		die(2, "usage: vh scale-sem <corpus> <prop> <seed> <n> <small-trace> <scale-out>")
+	}
+	cfg := corpusCfg(args[0])
+	cfg.allowSrcAllot, cfg.allowDstAllot, cfg.portionVars, cfg.origins = false, false, false, false
+	cfg.wTx, cfg.wAm = 0, 0
+	if cfg.wSend+cfg.wSave == 0 {
+		cfg.wSend = 10
+	}
+	prop := args[1]
+	seed, n := argInt(args[2]), argInt(args[3])
+	r := rand.New(rand.NewSource(int64(seed)*373587883 + int64(len(args[0]))))
+	lwSmall := newLineWriter(args[4])
+	lw := newLineWriter(args[5])
+	cnt, nontriv := 0, 0
+	var samples []any
+	for i := 0; cnt < n && i < 10*n; i++ {
+		c := genCase(r, cfg, cnt)
+		// no portion-typed or string variables matter; every number literal becomes a number variable
+		counter := 0
+		liftNumbers(c.Stmts, c, &counter)
+		c.Text = printProgram(c.Decls, c.Stmts)
+		er := execCase(c)
+		if er.dropped != "" {
+			continue
+		}
+		lwSmall.write(er.caseLine)
+		for _, e := range er.events {
+			lwSmall.write(e)
+		}
+		lwSmall.write(er.outcome.toJSON())
+		U, _ := new(big.Int).SetString(pick(r, scaleFactors), 10)
+		vars := map[string]string{}
+		for _, d := range c.Decls {
+			dj := d.(J)
+			name := dj["name"].(string)
+			raw, ok := c.RawVars[name]
+			if !ok {
+				continue
+			}
+			val := c.VarVals[name]
+			switch val["t"] {
+			case "num":
+				vars[name] = new(big.Int).Mul(U, big.NewInt(int64(val["v"].(int)))).String()
+			case "mon":
+				vars[name] = fmt.Sprintf("%s %s", val["a"], new(big.Int).Mul(U, big.NewInt(int64(val["v"].(int)))).String())
+			default:
+				vars[name] = raw
+			}
+		}
+		bal := map[string]map[string]*big.Int{}
+		for a, m := range c.Bal {
+			bal[a] = map[string]*big.Int{}
+			for as, v := range m {
+				bal[a][as] = new(big.Int).Mul(U, big.NewInt(v))
+			}
+		}
+		p := numscript.Parse(c.Text)
+		o := runParsed(context.Background(), p, vars, bigStore{bal: bal, meta: c.Meta}, false)
+		equal := o.St == er.outcome.St && len(o.Post) == len(er.outcome.Post)
+		bigPost := []any{}
+		for j, po := range o.Post {
+			bigPost = append(bigPost, []any{po.Source, po.Destination, po.Amount.String(), po.Asset})
+			if equal {
+				sp := er.outcome.Post[j]
+				if po.Source != sp.Source || po.Destination != sp.Destination || po.Asset != sp.Asset || po.Amount.Cmp(new(big.Int).Mul(U, sp.Amount)) != 0 {
+					equal = false
+				}
+			}
+		}
+		line := J{"e": "scale", "prop": prop, "n": cnt, "id": cnt, "text": c.Text, "factor": U.String(), "small": postingsToJSON(er.outcome.Post), "smallst": er.outcome.St,
+			"big": bigPost, "st": o.St, "equal": equal, "rawvars": c.RawVars, "bal": c.Bal}
+		lw.write(line)
+		if len(er.outcome.Post) >= 2 {
+			nontriv++
+			if len(samples) < 1 {
+				samples = append(samples, line)
+			}
+		}
+		cnt++
+	}
+	lwSmall.close()
+	lw.close()
+	printJSON(J{"cases": cnt, "nontrivial": nontriv, "samples": samples})
+}
